@@ -21,6 +21,8 @@ func init() {
 	vRegister("H16_history", H16_history)
 	vRegister("H19_faults", H19_faults)
 	vRegister("H16_recheck", H16_recheck)
+	vRegister("H18_vec", H18_vec)
+	vRegister("H19_nth", H19_nth)
 	vNativeResetHooks = append(vNativeResetHooks, faiss.VerifReset)
 }
 
@@ -569,4 +571,132 @@ func H16_recheck() {
 	vRunSpawned()
 	vAssert(faiss.VerifLive() == 0, "no-live-index")
 	vAssert(faiss.VerifDoubleClosed() == 0 && faiss.VerifUsedAfterClose() == 0, "no-misuse")
+}
+
+// H18_vec (C18 with a vector section): the close channel becomes closed at any poll of a merge of two vector
+// segments: the closed error, no file and every reconstructed / newly built engine index released - or a
+// complete file holding exactly the survivors' vectors.
+func H18_vec() {
+	sim := index.EuclideanDistance
+	mk := func(prefix string, vs ...int) []index.Document {
+		var docs []index.Document
+		for i, c := range vs {
+			id := fmt.Sprint(prefix, i)
+			docs = append(docs, &vDoc{id: id, fields: []index.Field{vIDField(id), &vVecField{name: "v", vec: vCatalogue[c], sim: sim},
+				vTextField("t", 1, []vTerm{{term: "a", freq: 1}}, index.IndexField|index.DocValues, nil, nil, 't')}})
+		}
+		return docs
+	}
+	var z ZapPlugin
+	s0 := vBuildInput(mk("a", 0, 4), DefaultChunkMode, vBool("reopen0"), vP("in0.zap"))
+	s1 := vBuildInput(mk("b", 1), DefaultChunkMode, false, vP("in1.zap"))
+	var drop *roaring.Bitmap
+	want := []sVec{{0, vCatalogue[0]}, {1, vCatalogue[4]}, {2, vCatalogue[1]}}
+	if vBool("drop") {
+		drop = roaring.New()
+		drop.Add(0)
+		want = []sVec{{0, vCatalogue[4]}, {1, vCatalogue[1]}}
+	}
+	live0 := faiss.VerifLive()
+	st := &vCancelStats{}
+	ch := vCloseChan(&st.writes)
+	path := vP("m.zap")
+	_, _, err := z.Merge([]segment.Segment{s0, s1}, []*roaring.Bitmap{drop, nil}, path, ch, st)
+	vRunSpawned()
+	vAssert(vFSOpenHandles() == vOpenCount(s0), "handle-closed")
+	vAssert(faiss.VerifLive() == live0, "no-index-leak")
+	vAssert(faiss.VerifDoubleClosed() == 0 && faiss.VerifUsedAfterClose() == 0, "no-misuse")
+	if err != nil {
+		vAssert(err == segment.ErrClosed, "err-is-closed")
+		vAssert(!vFSExists(path), "error-no-file")
+		return
+	}
+	m, err := z.Open(path)
+	vAssert(err == nil, "open")
+	vAssert(m.Count() == uint64(len(want)), "count")
+	vi, err := m.(segment.VectorSegment).InterpretVectorIndex("v", false, nil)
+	vAssert(err == nil && vi != nil, "interpret")
+	for qi := range []int{0, 1} {
+		q := vCatalogue[qi]
+		pl, err := vi.Search(q, 16, nil)
+		vAssert(err == nil, "search-err")
+		sCheckVecResult(pl, want, sim, q, 16, func(uint64) bool { return true }, "m-")
+	}
+	vi.Close()
+	vAssert(m.Close() == nil, "close-merged")
+}
+
+// H19_nth: the n-th call of each engine operation fails, for every n that occurs in the fault-free run of the
+// same build / merge (one or two vector fields, so that operations are called several times).
+func H19_nth() {
+	sim := index.EuclideanDistance
+	nf := 1 + vChoice("fields", 2)
+	mk := func(prefix string, cs ...int) []index.Document {
+		var docs []index.Document
+		for i, c := range cs {
+			id := fmt.Sprint(prefix, i)
+			fields := []index.Field{vIDField(id), &vVecField{name: "v", vec: vCatalogue[c], sim: sim}}
+			if nf == 2 {
+				fields = append(fields, &vVecField{name: "w", vec: vCatalogue[(c+1)%len(vCatalogue)], sim: sim})
+			}
+			docs = append(docs, &vDoc{id: id, fields: fields})
+		}
+		return docs
+	}
+	ops := []string{"IndexFactory", "AddWithIDs", "WriteIndexIntoBuffer", "ReadIndexFromBuffer", "ReconstructBatch", "SetDirectMap", "Train"}
+	op := ops[vChoice("op", len(ops))]
+	var z ZapPlugin
+	complete := func(seg segment.Segment, n int, tag string) {
+		for _, f := range []string{"v", "w"}[:nf] {
+			vi, err := seg.(segment.VectorSegment).InterpretVectorIndex(f, false, nil)
+			vAssert(err == nil, tag+"interpret")
+			pl, err := vi.Search(vCatalogue[0], 8, nil)
+			vAssert(err == nil && pl.Count() == uint64(n), tag+"silently-incomplete")
+			vi.Close()
+		}
+	}
+	if vBool("merge") {
+		s0, _, err := z.newWithChunkMode(mk("a", 0, 4), DefaultChunkMode)
+		vAssert(err == nil, "build0")
+		s1, _, err := z.newWithChunkMode(mk("b", 1, 2), DefaultChunkMode)
+		vAssert(err == nil, "build1")
+		drop := roaring.New()
+		drop.Add(0)
+		c0 := faiss.VerifCalls(op)
+		_, _, err = z.Merge([]segment.Segment{s0, s1}, []*roaring.Bitmap{drop, nil}, vP("m0.zap"), nil, nil)
+		vAssert(err == nil, "fault-free-merge")
+		vRunSpawned()
+		calls := faiss.VerifCalls(op) - c0
+		if calls == 0 {
+			return
+		}
+		live0 := faiss.VerifLive()
+		faiss.VerifFail(op, faiss.VerifCalls(op)+1+vChoice("nth", calls))
+		_, _, err = z.Merge([]segment.Segment{s0, s1}, []*roaring.Bitmap{drop, nil}, vP("m.zap"), nil, nil)
+		vRunSpawned()
+		vAssert(err != nil, "failure-reported")
+		vAssert(!vFSExists(vP("m.zap")), "error-no-file")
+		vAssert(vFSOpenHandles() == 0, "handle-closed")
+		vAssert(faiss.VerifLive() == live0, "no-index-leak")
+		vAssert(faiss.VerifDoubleClosed() == 0 && faiss.VerifUsedAfterClose() == 0, "no-misuse")
+		return
+	}
+	c0 := faiss.VerifCalls(op)
+	seg, _, err := z.newWithChunkMode(mk("a", 0, 4, 1), DefaultChunkMode)
+	vAssert(err == nil, "fault-free-build")
+	vRunSpawned()
+	calls := faiss.VerifCalls(op) - c0
+	complete(seg, 3, "free-")
+	if calls == 0 {
+		return
+	}
+	live0 := faiss.VerifLive()
+	faiss.VerifFail(op, faiss.VerifCalls(op)+1+vChoice("nth", calls))
+	seg2, _, err := z.newWithChunkMode(mk("a", 0, 4, 1), DefaultChunkMode)
+	vRunSpawned()
+	if err != nil {
+		vAssert(faiss.VerifLive() == live0, "build-no-index-leak")
+		return
+	}
+	complete(seg2, 3, "after-")
 }
